@@ -236,6 +236,10 @@ func NewRaftNodeWithLogger(opts *ClusteringOptions, store storage.ManagedStore, 
 		return nil, fmt.Errorf("file snapshot store: %s", err)
 	}
 
+	// The FSM may be asked to apply entries as soon as raft runs, so
+	// everything the apply path touches must exist before raft starts.
+	node.metrics = newRaftNodeMetrics(node)
+
 	// instantiate the raft server
 	node.raft, err = raft.NewRaft(node.raftConfig, node, logStore, node.raftLog, node.snapshots, node.transport)
 	if err != nil {
@@ -245,7 +249,6 @@ func NewRaftNodeWithLogger(opts *ClusteringOptions, store storage.ManagedStore, 
 	}
 
 	// register metrics
-	node.metrics = newRaftNodeMetrics(node)
 	node.raftMetrics = newRaftInternalMetrics(node.raft)
 
 	// check existing state
